@@ -724,6 +724,70 @@ class Ctx:
         shutil.rmtree(self.work, ignore_errors=True)
 
 
+def check_executions(ctx, binary, executions, tag, spec_dir, trace_module, trace_cfg, key_of,
+                     driver_args=(), driver_env=None, driver_timeout=900, tlc_timeout=900, count_traces=True):
+    """The standard binding step shared by the sequential components:
+       executions (lists of op lines) -> real code via the driver -> ndjson trace -> TLC trace specification.
+    Every crash (sanitizer report, hang, abort) and every event the Layer-1 trace spec rejects is reported through
+    ctx.report(key_of(ops, step), replay file, text).  key_of(ops, step) -> canonical signature of the failing step
+    (step is 1-based; step == len(ops) for crashes where the exact step is unknown)."""
+    trace = os.path.join(ctx.work, "trace_%s.ndjson" % tag)
+    dr = run_driver(binary, executions, trace, timeout=driver_timeout, env=driver_env, args=driver_args)
+    ctx.evaluations += sum(len(e) for e in executions)
+    index = index_trace(trace)
+    logged_steps = {}
+    for ex, step in index:
+        logged_steps[ex] = max(logged_steps.get(ex, 0), step)
+    crashed = set()
+    for idx, out, kind in dr.crashes:
+        ops = executions[idx]
+        crashed.add(idx)
+        step = min(len(ops), logged_steps.get(idx, 0) + 1)      # the op after the last logged one
+        p = ctx.save_replay("%s_crash_%d.ops" % (tag, idx), ["reset"] + ops[:step])
+        ctx.report("%s:%s" % (key_of(ops, step), kind), p,
+                   "driver %s at step %d of execution %d: ops=%s\n%s" % (kind, step, idx, ops[:step][-12:], out[-1800:]))
+    r, mism, done = validate_trace(spec_dir, trace_module, trace_cfg, trace, timeout=tlc_timeout)
+    ctx.add_tlc("trace:" + tag, r, must_pass=False)
+    if r.violation:
+        ctx.broken.append("trace spec %s: invariant violated / TLC error: %s" % (trace_module, r.violation[:1200]))
+    if not done and not r.broken and not r.violation:
+        ctx.broken.append("trace validation of %s did not reach the end of the trace" % tag)
+    badexec = set()
+    for line, why in mism:
+        ex, step = index[line - 1]
+        if ex in badexec:
+            continue          # later mismatches of one execution may be consequences of the first
+        badexec.add(ex)
+        ops = executions[ex]
+        p = ctx.save_replay("%s_mismatch_%d.ops" % (tag, ex), ["reset"] + ops[:step])
+        ctx.report(key_of(ops, step), p, "Layer-1 mismatch at step %d (%s) of execution %d: ops=%s" % (step, why, ex, ops[:step][-12:]))
+    if count_traces:
+        ctx.traces += len(executions) - len(badexec | crashed)
+    for e in executions:
+        if len(e) >= 2:
+            ctx.distinct.add(hash(tuple(e)))
+    if executions:
+        ctx.sample({"source": tag, "ops": executions[len(executions) // 2][:12]})
+    return badexec | crashed
+
+
+def read_ops_file(path):
+    """Replay file -> list of executions (lists of op lines)."""
+    execs = []
+    with open(path) as f:
+        for line in f:
+            line = line.strip()
+            if not line or line.startswith("#"):
+                continue
+            if line == "reset":
+                execs.append([])
+            else:
+                if not execs:
+                    execs.append([])
+                execs[-1].append(line)
+    return [e for e in execs if e]
+
+
 def write_evidence(ctx, level, rule, explanation=None, exhaustive=None, extra=None):
     cov = {
         "states": int(ctx.states), "transitions": int(ctx.transitions),
@@ -756,7 +820,8 @@ def write_evidence(ctx, level, rule, explanation=None, exhaustive=None, extra=No
 
 def finish(ctx, level, rule, **kw):
     """Print verdict lines, write evidence, return exit code."""
-    write_evidence(ctx, level, rule, **kw)
+    if not ctx.replay:
+        write_evidence(ctx, level, rule, **kw)
     for key, path in sorted(ctx.known_hits.items()):
         f = ctx.known[key]
         log("KNOWN-FINDING: property=%s %s [key=%s replay=%s]" % (ctx.prop, f.get("what", ""), key, path))
